@@ -94,6 +94,9 @@ struct C02Case {
     /// blocks appended (unscanned) after the history, so that there is something to scan
     extra_blocks: Vec<BlockSpec>,
     pre_lock: Option<(u32, u8, u8)>,
+    /// aim the pre-lock at a later element of the batch a `Lock` operation is about to lock, under a different
+    /// owner, so that the batch fails AFTER its first outputs were locked (`LockFailure` must roll those back)
+    pre_lock_aimed: bool,
     op: WOp,
     pos_sel: Vec<u32>,
 }
@@ -108,7 +111,18 @@ fn arb_c02_case() -> impl Strategy<Value = C02Case> {
             arb_wop(),
             proptest::collection::vec(any::<u32>(), 12),
         )
-            .prop_map(move |(extra_blocks, pre_lock, op, pos_sel)| C02Case { hist: hist.clone(), extra_blocks, pre_lock, op, pos_sel })
+            .prop_map(move |(extra_blocks, pre_lock, op, pos_sel)| C02Case { hist: hist.clone(), extra_blocks, pre_lock, pre_lock_aimed: false, op, pos_sel })
+    })
+}
+
+/// Cases whose operation is a batch `lock_outputs` of 2-4 outputs with one of the later outputs already locked by
+/// another owner.
+fn arb_c02_lock_case() -> impl Strategy<Value = C02Case> {
+    (arb_c02_case(), any::<u32>(), 2u8..5, 0u8..3, 1u8..30, any::<u32>(), 1u8..30).prop_map(|(mut c, first, n, owner, for_blocks, sel, pre_for)| {
+        c.op = WOp::Lock { first, n, owner, for_blocks };
+        c.pre_lock = Some((sel, owner, pre_for));
+        c.pre_lock_aimed = true;
+        c
     })
 }
 
@@ -537,10 +551,10 @@ fn build_state(case: &C02Case) -> Result<Option<(Hist, OpCtx)>, Fail> {
     let mut h = Hist::new(&case.hist.world, true);
     for (i, op) in case.hist.ops.iter().enumerate() {
         match h.apply(op, &step_name(i, op)) {
-            Err(f) if f.signature == SIG_TREE_CONFLICT => return Ok(None),
+            Err(f) if f.signature == SIG_TREE_CONFLICT || f.signature == SIG_STALE_SUBTREE_ROOT => return Ok(None),
             r => r?,
         }
-        if h.tainted_stale_annotation {
+        if h.tainted().is_some() {
             return Ok(None); // known shardtree finding (C06): scans may fail with Conflict afterwards
         }
     }
@@ -561,7 +575,20 @@ fn build_state(case: &C02Case) -> Result<Option<(Hist, OpCtx)>, Fail> {
             txids.insert(note.txid);
         }
     }
-    if let Some((first, owner, for_blocks)) = case.pre_lock {
+    if let (true, Some((sel, _, for_blocks)), WOp::Lock { first, n, owner, .. }) = (case.pre_lock_aimed, case.pre_lock, &case.op) {
+        if !notes.is_empty() {
+            // the same batch the operation will compute
+            let start = vcore::pick_index(*first, notes.len());
+            let acct = notes[start].0;
+            let batch: Vec<&(u8, Pool, [u8; 32], u32)> = notes.iter().cycle().skip(start).take(notes.len()).filter(|x| x.0 == acct).take(*n as usize).collect();
+            if batch.len() >= 2 {
+                let victim = batch[1 + vcore::pick_index(sel, batch.len() - 1)];
+                let tip = h.chain.tip_height();
+                let other = LockOwner::new([(*owner + 1) % 3 + 1; 32]);
+                let _ = h.w.db().lock_outputs(&[out_ref(victim)], other, BlockHeight::from_u32(tip + for_blocks as u32));
+            }
+        }
+    } else if let Some((first, owner, for_blocks)) = case.pre_lock {
         if !notes.is_empty() {
             let n = &notes[vcore::pick_index(first, notes.len())];
             let tip = h.chain.tip_height();
@@ -907,8 +934,13 @@ fn main() {
         let c2 = ctx.clone();
         ctx.run_prop_with("fault-enumeration", arb_c02_case, tier.pick(128, 3_000), 20, move |c| run_case(&c2, c));
     }
-    ctx.require_min_count("fault-enumeration", "op:put_blocks", 20);
+    ctx.require_min_count("fault-enumeration", "op:put_blocks", 6);
     ctx.require_min_count("fault-enumeration", "faults-after-first-write", 200);
+    {
+        let c3 = ctx.clone();
+        ctx.run_prop_with("lock-batch-conflict", arb_c02_lock_case, tier.pick(64, 1_000), 20, move |c| run_case(&c3, c));
+    }
+    ctx.require_min_count("lock-batch-conflict", "reference-errs", 8);
     ctx.run_prop_with("reader-snapshot", arb_c02_case, tier.pick(96, 2_000), 20, run_reader_case);
     ctx.require_min_count("reader-snapshot", "reader-interleavings-compared", 30);
     // evidence: totals across op kinds
